@@ -37,6 +37,12 @@ def _rules(r, pre):
     check_index_builder(r, pre + "C01-IDX")
     rep.floor(pre + "C01-IDX", 4)
     check_engines_stateless(r, pre + "C01-STATE", entries=("symdel", "nearest_neighbor", "SymdelDB.__init__"))
+    # lints and glue shared with the other neighbour-search properties (dictionary guards, container casts, wrappers, _make_output sites)
+    from ._nn import check_container_casts, check_dict_guards, check_nn_glue
+    own_fns = {MOD + "symdel", MOD + "SymdelDB.__init__", MOD + "_comb_gen"}
+    check_container_casts(r, pre + "C01-IST", nn, own_fns)
+    check_dict_guards(r, pre + "C01-IST", nn, own_fns)
+    check_nn_glue(r, pre + "C01", {"none"}, {"symdel-self"}, {MOD + "symdel"})
     # self-mode sites
     n = 0
     for mode in [m for m in MODES if m[0] == "none"]:
